@@ -27,3 +27,20 @@ Theorem C11_regen_oracle :
   forall (es : list ent) (s : strat) (a : alias), regen es s a <-> exists fuel, regenb fuel es s a = true.
 Proof. exact regenb_iff. Qed.
 Print Assumptions C11_regen_oracle.
+
+(* at the level of whole runs: a fault-free run that ends well has regenerated exactly the entities the relation demands for its
+   flags, each once, every issuer before its subjects (this is what rule 7 of the lockstep check evaluates on the
+   implementation's written set) *)
+From Gopki.Proofs Require Import WritesProofs.
+Theorem C11_successful_run_regenerates_exactly :
+  forall (fn : bool) (d : dir) (s : strat) (d' : dir) (w : list alias),
+    forest (d_ents d) ->
+    all_valid (d_ents d) ->
+    run cur_csr fn d s None = (ROk, d', w) ->
+    (forall a : alias, In a w <-> regen (d_ents d) s a) /\
+    NoDup w /\
+    (forall (i j : nat) (x y : alias) (e : ent),
+     nth_error w i = Some x ->
+     nth_error w j = Some y -> find_ent (d_ents d) y = Some e -> issuer_of e = Some x -> i < j).
+Proof. exact successful_run_regenerates_exactly. Qed.
+Print Assumptions C11_successful_run_regenerates_exactly.
